@@ -72,6 +72,11 @@ var _ rpc.Resources
 
 // In the gateway the only ConnSubscriber is *wsConn (HTTP requests use a temporary wsConn).
 //@ devirtualize ConnSubscriber => *wsConn
+// Implementations of the interfaces through which the other packages reach this one: what the
+// interface contracts promise about callbacks is checked against these methods' contracts.
+//@ implements rpc.Requester by *wsConn
+//@ implements rescache.Subscriber by *Subscription
+//@ implements rescache.Conn by *wsConn
 
 // Set at construction only (checked: no assignment outside composite literals).
 //@ immutable Subscription.c, Subscription.rid, Subscription.resourceName, Subscription.resourceQuery
@@ -1457,32 +1462,33 @@ var _ rpc.Resources
 //@   ensures[C06] event.Event == "reaccess" ==> callcount("processEvent") == old(callcount("processEvent")) && s.eventQueue == old(s.eventQueue)
 //@   safety[C15]
 
-// reaccess: a disposed subscription ignores it; while the event queue is held the re-access is
-// deferred (flagReaccess) and nothing else changes; otherwise it is handled now.
+// reaccess: a disposed subscription ignores it; otherwise the cached access answer is void from
+// this moment on (a call arriving before the new verdict must ask again); while the event queue
+// is held the re-access request itself is deferred (flagReaccess), otherwise it is made now.
 //@ func (*Subscription).reaccess
 //@   requires s != nil && s.c != nil && predConnOK(s.c.(*wsConn))
 //@   requires t != nil ==> rescache.predThrottleInv(t)
 //@   assumes predCountsOK()
 //@   ensures[C06] old(s.state) == stateDisposed ==> s.access == old(s.access) && s.flags == old(s.flags) && s.queueFlag == old(s.queueFlag)
-//@   ensures[C06] old(s.state) != stateDisposed && old(s.queueFlag) != 0 ==> s.flags == old(s.flags) | flagReaccess && s.access == old(s.access) && s.queueFlag == old(s.queueFlag)
-//@   ensures[C06,C04] old(s.state) != stateDisposed ==> s.access == nil || s.flags & flagReaccess != 0
+//@   ensures[C06] old(s.state) != stateDisposed && old(s.queueFlag) != 0 ==> s.flags == old(s.flags) | flagReaccess && s.queueFlag == old(s.queueFlag)
+//@   ensures[C04,C05,C06] old(s.state) != stateDisposed ==> s.access == nil
 //@   ensures[C06] predSubsStable()
 //@   ensures[C06] forall x *Subscription :: x != s ==> x.access == old(x.access) && x.flags == old(x.flags)
 //@   safety[C15]
 
 // setToken: the token and token id are replaced; if the connection already had a token, every
-// subscription's cached access verdict is dropped or its re-access is pending afterwards.
+// subscription's cached access verdict is dropped.
 //@ func (*wsConn).setToken
 //@   requires predConnOK(c)
 //@   assumes predSubsOK(c)
 //@   ensures[C06,C10] c.tid == tid && c.token == token
-//@   ensures[C06,C04] old(c.token) != nil ==> (forall r string :: has(c.subs, r) && c.subs[r].state != stateDisposed ==>
-//@       c.subs[r].access == nil || c.subs[r].flags & flagReaccess != 0)
+//@   ensures[C04,C05,C06] old(c.token) != nil ==> (forall r string :: has(c.subs, r) && c.subs[r].state != stateDisposed ==>
+//@       c.subs[r].access == nil)
 //@   ensures[C06] old(c.token) == nil ==> (forall x *Subscription :: x.access == old(x.access) && x.flags == old(x.flags) && x.queueFlag == old(x.queueFlag))
 //@   safety[C15]
 //@   loop 1 invariant c.tid == tid && c.token == token && old(c.token) != nil && c.subs == old(c.subs)
 //@   loop 1 invariant forall r string :: has(c.subs, r) ==> c.subs[r] != nil && c.subs[r].c == c
-//@   loop 1 invariant forall r string :: visited1[r] && has(c.subs, r) && c.subs[r].state != stateDisposed ==> c.subs[r].access == nil || c.subs[r].flags & flagReaccess != 0
+//@   loop 1 invariant forall r string :: visited1[r] && has(c.subs, r) && c.subs[r].state != stateDisposed ==> c.subs[r].access == nil
 
 // SpecOriginEq is the executable form of predOriginEq.
 func SpecOriginEq(s, o string) bool {
